@@ -46,6 +46,8 @@ FIELD_TYPES = {
     ('SupvisorsOptions', 'rules_files'): TOpt(TList(STR)),
     ('ProcessCommand', 'minimum_ticks'): INT,
     ('SupvisorsInstanceStatus', 'stats_collector'): TOpt(TObj('StatisticsCollectorProcess')),
+    # annotated float, but only ever built by HostStatisticsCompiler.add_instance from options.stats_histo (an int)
+    ('HostStatisticsInstance', 'depth'): INT,
 }
 
 # keys of payload records (Dict[str, Any] with literal keys) -> type
@@ -62,6 +64,12 @@ REC_KEYS = {
     # ticks
     'when': REAL, 'when_monotonic': REAL, 'sequence_counter': INT, 'stereotypes': TList(STR),
     'nick_identifier': STR, 'ip_address': STR,
+    # statistics samples (statscollector.py; JSON turns the tuples into 2-element lists, same reads) and the keys of
+    # the integrated results that do not clash with a sample key (the results are dict literals, never stored in records)
+    'cpu': TList(TTuple([REAL, REAL])), 'mem': REAL, 'net_io': TDict(STR, TTuple([INT, INT])),
+    'disk_io': TDict(STR, TTuple([INT, INT])), 'disk_usage': TDict(STR, REAL),
+    'namespec': STR, 'proc_work': REAL, 'proc_memory': REAL, 'nb_cores': INT, 'target_period': REAL,
+    'period': TTuple([REAL, REAL]),
 }
 
 EXTERNAL_TYPES = {}
